@@ -299,5 +299,57 @@ def Prog.ssaEntries (g : Prog α) : Bool := decide (outEnts g.flat).Nodup
 def Prog.sigOut (g : Prog α) : List Nat := g.allOut.eraseDups
 def Prog.sigIn (g : Prog α) : List Nat := (g.allIn.filter (fun s => !g.allOut.contains s)).eraseDups
 
+/-! ## building networks by `append`
+
+`Network.append` extends `self.mods` and recomputes `self.sig_in / self.sig_out` of THAT network only,
+from the `sig_in / sig_out` its items have at that moment.  A nested network that is extended after it
+was appended to its parent therefore leaves the parent's lists stale, while `response / sensitivity /
+reset` iterate over `mods` and see the late modules. -/
+
+/-- an item handed to `append`: a primitive module or (a reference to) another `Network` object -/
+inductive Item (α : Type) where
+  | prim (p : Prim α)
+  | ref (j : Nat)
+
+/-- a `Network` object: its `mods` and the `sig_in` / `sig_out` recorded by its last non-empty `append` -/
+structure NetRec (α : Type) where
+  mods : List (Item α)
+  sigIn : List Nat
+  sigOut : List Nat
+
+def Item.sigIn (nets : List (NetRec α)) : Item α → List Nat
+  | .prim p => p.ins.map (·.sid)
+  | .ref j => match nets[j]? with
+    | some r => r.sigIn
+    | none => []
+
+def Item.sigOut (nets : List (NetRec α)) : Item α → List Nat
+  | .prim p => p.outs.map (·.sid)
+  | .ref j => match nets[j]? with
+    | some r => r.sigOut
+    | none => []
+
+/-- `nets[k].append(items)` (`if len(modlist) == 0: return` leaves everything as it is) -/
+def appendEv (nets : List (NetRec α)) (k : Nat) (items : List (Item α)) : List (NetRec α) :=
+  if items.isEmpty then nets else
+  match nets[k]? with
+  | none => nets
+  | some r =>
+    let mods := r.mods ++ items
+    let allIn := mods.flatMap (Item.sigIn nets)
+    let allOut := mods.flatMap (Item.sigOut nets)
+    nets.set k ⟨mods, (allIn.filter (fun s => !allOut.contains s)).eraseDups, allOut.eraseDups⟩
+
+/-- the program that `response / sensitivity / reset` of network `k` execute (they iterate over `mods`) -/
+def resolve (nets : List (NetRec α)) : Nat → Nat → Prog α
+  | 0, _ => .done
+  | fuel + 1, k =>
+    match nets[k]? with
+    | none => .done
+    | some r => r.mods.foldr (fun it acc =>
+        match it with
+        | .prim p => .prim p acc
+        | .ref j => .sub (resolve nets fuel j) acc) .done
+
 end
 end PymotoVerif.Net
